@@ -121,6 +121,8 @@ def register_elf_layouts():
             SIZES[name] = (sa, sb)
 
             def size(owner, sa=sa, sb=sb):
+                if sa == sb:
+                    return sa
                 ec = owner.attrs['elfclass']
                 if isinstance(ec, int):
                     return sa if ec == 32 else sb
